@@ -90,7 +90,19 @@ func (r *Run) UseDiskScratch() {
 	// such a run decodes transaction files of a gigabyte: the per-run memory
 	// ceiling (runner.go) would turn into a collector that never stops
 	debug.SetMemoryLimit(int64(envInt("SIM_BIG_MEM_LIMIT_MB", 8192)) << 20)
+	// ... and several of them at once exhaust the machine (the workers of a
+	// batch were killed by the kernel): one at a time, machine-wide. The wait
+	// is a blocking system call on the real clock; the watchdog is told.
+	if f, err := os.OpenFile("/var/tmp/verifsim-bigrun.lock", os.O_CREATE|os.O_RDWR, 0o666); err == nil {
+		bigWait.Store(true)
+		_ = syscall.Flock(int(f.Fd()), syscall.LOCK_EX)
+		bigWait.Store(false)
+		r.OnCleanup(func() { f.Close() })
+	}
 }
+
+// bigWait is set while a run waits for its turn to be the one big run.
+var bigWait atomic.Bool
 
 // Thorough reports whether the run belongs to the thorough tier.
 func (r *Run) Thorough() bool { return r.Tier == "thorough" }
